@@ -350,6 +350,28 @@ example : WellFormed exDefs := by
 
 end Examples
 
+/-- A successful expansion leaves no selected invocation behind, … -/
+theorem C20_output_no_selected {defs : List (Def K)} {sel : String → Bool} {stack : List String}
+    {src out : List (Instr K)} (h : Expands defs sel stack src out) :
+    ∀ i ∈ out, ¬ IsSelectedInvocation defs sel i := by
+  induction h with
+  | nil => simp
+  | keep hn _ ih =>
+    intro i hi
+    cases hi with
+    | head => exact hn
+    | tail _ hi' => exact ih i hi'
+  | unfold _ _ _ _ _ _ ih1 ih2 =>
+    intro i hi
+    rcases List.mem_append.1 hi with hi | hi
+    · exact ih1 i hi
+    · exact ih2 i hi
+
+/-- … so expanding the result again (sequences of calls) changes nothing. -/
+theorem C20_expand_idempotent (defs : List (Def K)) (sel : String → Bool) (src out : List (Instr K))
+    (h : expand defs sel src = .ok out) : expand defs sel out = .ok out :=
+  C20_unselected_unchanged defs sel out (C20_output_no_selected ((C20_expand_ok_iff defs sel src out).1 h))
+
 /-- **Positional substitution.** If the definition's formal parameters are pairwise distinct, the
 instantiated body is the definition's gates with every parameter expression substituted by a `σ` that maps
 the `i`-th formal to the `i`-th argument and nothing else; names and modifiers are those of the elements. -/
